@@ -4,6 +4,8 @@ C03  Sort order persists through the pipeline and take selects by position.
 import PrqlModel.Model.Take
 import PrqlModel.Model.Rel
 import PrqlModel.Lemmas.SpSeg
+import PrqlModel.Lemmas.SortBy
+import PrqlModel.Lemmas.RelBlock
 namespace Props.C03
 open Rel Model.Take
 
@@ -133,5 +135,95 @@ theorem select_keeps_rows_in_place (resolve : Src → Table) (t : Table) (es : L
 /-- the reference `take` is the positional slice of the spike algebra -/
 theorem takeRange_eq_takeR (lo hi : Option Nat) (l : List α) : takeRange lo hi l = takeR lo hi l := by
   cases hi <;> rfl
+
+/-! ### the same algebra ON THE REFERENCE SEMANTICS: `sortRows` (NULLs, text, booleans, `desc` flags, several keys) -/
+section RelOrder
+open Lemmas.SortBy Lemmas.RelBlock
+
+/-- the comparison `sortRows ks` sorts by is a total preorder on rows (`Value.cmp` is one on values:
+NULL < numbers < text, booleans as 0/1; `cmpChars` is a linear order on texts) -/
+theorem order_total_rel (ks : List SortKey) : Total (leKeys ks) ∧ Trans (leKeys ks) :=
+  ⟨leKeys_total ks, leKeys_trans ks⟩
+
+/-- T3d-rel the result of a sort is ordered by its keys and is a permutation of the input -/
+theorem sort_sorted_rel (ks : List SortKey) (rows : List Row) :
+    (sortRows ks rows).Pairwise (fun a b => cmpKeys ks a b ≠ .gt) ∧ (sortRows ks rows).Perm rows :=
+  ⟨sortRows_sorted ks rows, sortRows_perm ks rows⟩
+
+/-- T3a-rel filter keeps the order of the most recent sort: WHERE may be evaluated before ORDER BY -/
+theorem filter_keeps_order_rel (ks : List SortKey) (p : Row → Bool) (rows : List Row) :
+    (sortRows ks rows).filter p = sortRows ks (rows.filter p) := filter_sortRows ks p rows
+
+/-- … stated on pipelines: `sort ks | filter e` and `filter e | sort ks` denote the same rows -/
+theorem sort_filter_comm_rel (resolve : Src → Table) (t : Table) (ks : List SortKey) (e : Expr) :
+    (step resolve (step resolve t (.sort ks)) (.filter e)).rows
+      = (step resolve (step resolve t (.filter e)) (.sort ks)).rows := by
+  simp only [step]; exact filter_sortRows ks _ t.rows
+
+/-- T3b-rel derive keeps the order: on rows of width `w` a sort by keys over the existing columns commutes
+with a derive (a derive APPENDS columns, positions `< w` are untouched) -/
+theorem derive_keeps_order_rel (w : Nat) (es : List Expr) (ks : List SortKey) (rows : List Row)
+    (hw : ∀ r ∈ rows, r.length = w) (hk : KeysWithin w ks) :
+    (sortRows ks rows).map (deriveRow es) = sortRows ks (rows.map (deriveRow es)) :=
+  derive_sortRows w es ks rows hw hk
+
+example : (∀ r ∈ [[Value.int 2, .str ['b']], [.int 1, .null]], r.length = 2) ∧
+    KeysWithin 2 [(.col 1, true), (.bin .add (.col 0) (.lit (.int 1)), false)] := by
+  refine ⟨by decide, ?_⟩
+  intro k hk i hi
+  simp only [List.mem_cons, List.not_mem_nil, or_false] at hk
+  rcases hk with rfl | rfl <;> simp [Expr.reads] at hi <;> omega
+
+/-- T3b'-rel any projection keeps the order when the keys are rewritten through it (ORDER BY on select aliases) -/
+theorem project_keeps_order_rel (σ : List Expr) (ks : List SortKey) (rows : List Row) :
+    (sortRows (substKeys σ ks) rows).map (projRow σ) = sortRows ks (rows.map (projRow σ)) :=
+  orderBy_alias σ ks rows
+
+/-- T3c-rel the most recent sort wins when it has no ties on the rows (`hasTies` is the `ties` flag of the
+reference semantics): an earlier sort is unobservable -/
+theorem last_sort_wins_rel (ks ks' : List SortKey) (rows : List Row) (hnt : hasTies ks rows = false) :
+    sortRows ks (sortRows ks' rows) = sortRows ks rows := sortRows_sortRows ks ks' rows hnt
+
+example : hasTies [(.col 1, true), (.col 0, false)]
+    [[.int 2, .str ['b']], [.int 1, .null], [.int 1, .str ['b']], [.bool true, .str ['a', 'b']]] = false := by decide
+/-- the hypothesis is needed: with ties the earlier sort shows (the sort is stable) -/
+example : sortRows [(.col 0, false)] (sortRows [(.col 1, true)] [[.int 1, .int 5], [.int 1, .int 7]])
+    ≠ sortRows [(.col 0, false)] [[.int 1, .int 5], [.int 1, .int 7]] := by decide
+
+/-- … without ties the sorted rows depend on the multiset of rows only (any sort, stable or not, agrees) -/
+theorem sort_unique_rel (ks : List SortKey) {l1 l2 : List Row} (hnt : hasTies ks l1 = false)
+    (hp : l1.Perm l2) : sortRows ks l1 = sortRows ks l2 := sortRows_eq_of_perm ks hnt hp
+
+/-- the sort is stable: rows that are already in order keep their places (in particular ties keep
+their relative order); sorting twice by the same keys is sorting once -/
+theorem sort_stable_rel (ks : List SortKey) (rows : List Row)
+    (h : rows.Pairwise (fun a b => leKeys ks a b = true)) : sortRows ks rows = rows :=
+  isortBy_of_sorted h
+
+theorem sort_idem_rel (ks : List SortKey) (rows : List Row) :
+    sortRows ks (sortRows ks rows) = sortRows ks rows := sortRows_idem ks rows
+
+/-- T1-rel two consecutive takes of the reference semantics = one take of the composed range -/
+theorem take_compose_rel (s1 e1 s2 e2 : Option Nat) (l : List α)
+    (h1 : ∀ a, s1 = some a → 1 ≤ a) (h2 : ∀ b, s2 = some b → 1 ≤ b) :
+    takeRange s2 e2 (takeRange s1 e1 l)
+      = takeRange (compose s1 e1 s2 e2).1 (compose s1 e1 s2 e2).2 l := by
+  rw [takeRange_eq_takeR, takeRange_eq_takeR, takeRange_eq_takeR]
+  exact take_compose s1 e1 s2 e2 l h1 h2
+
+example : (∀ a, some 2 = some a → 1 ≤ a) ∧ (∀ b, (none : Option Nat) = some b → 1 ≤ b) :=
+  ⟨fun a h => by cases h; decide, fun b h => by cases h⟩
+example : takeRange none (some 2) (takeRange (some 2) (some 5) [10, 20, 30, 40, 50, 60]) = [20, 30] := by decide
+
+/-- … and the run of takes of a pipeline is the LIMIT/OFFSET pair the compiler emits, on `takeRange` -/
+theorem take_positions_rel (rs : List Range) (l : List α) (h : StartsOk rs) :
+    limitOffset (limitOffsetOf (rangeOfRanges rs)).1 (limitOffsetOf (rangeOfRanges rs)).2 l
+      = rs.foldl (fun acc r => takeRange r.1 r.2 acc) l := by
+  rw [take_positions rs l h]
+  have hf : (fun (acc : List α) (r : Range) => takeR r.1 r.2 acc) = fun acc r => takeRange r.1 r.2 acc := by
+    funext acc r; exact (Props.C03.takeRange_eq_takeR r.1 r.2 acc).symm
+  simp only [takes, hf]
+
+end RelOrder
 
 end Props.C03
